@@ -88,6 +88,8 @@ def h_options(eng):
     w = flow.World(eng, "r", False, {}, [])
     w.files_symbolic = True
     opts = flow.symbolic_options(eng, formatting=dict(whitespace=False, keep_chain=False, include_header=False, ffout=0, pdb_output=0, apbs_input=0))
+    if opts["userff"] is not None and eng.flag("ff_default_kept_next_to_userff"):
+        opts["ff"] = "PARSE"  # what argparse delivers for `--userff X` alone: --ff keeps its default
     exc = flow.run_driver(w, opts)
     pq = _pqr_opens(w)
     ex = lambda p: w.shared.get(f"exists@{flow.describe(p)}", True)
